@@ -2966,6 +2966,7 @@ func (a *Association) processFastRetransmission( //nolint:gocognit
 			if !c.acked && !c.abandoned() && c.missIndicator < 3 {
 				c.missIndicator++
 				if c.missIndicator == 3 {
+					vfHook(a, vfEvMiss3, c)
 					if a.tlrActive {
 						a.tlrApplyAdditionalLossLocked(time.Now())
 					}
